@@ -229,7 +229,7 @@ def _c07_val(rnd, name, default=None):
     return v() if callable(v) else v
 
 
-def _c07_check(col, x, expected, after):
+def _c07_check(col, x, expected, after, stale=()):
     groups = C.groups(C.OneOfs)
     for g, members in groups.items():
         want = expected[g]
@@ -258,6 +258,21 @@ def _c07_check(col, x, expected, after):
                 return False
             col.add("other-member-readable-after-%s" % after, "group %s is %r but reading %s returned %s" % (g, want, f.name, short(v)))
             return False
+    # "at most one member of each group is set": repr() lists exactly the fields that hold a value
+    try:
+        shown = repr(x)
+    except Exception as e:
+        col.add("repr-raises-after-%s" % after, exc(e))
+        return False
+    import re as _re
+    for g, members in groups.items():
+        if g in stale:
+            continue    # several members were passed to the constructor at once: not an operation of the property
+        for f in members:
+            if f.name != expected[g] and _re.search(r"\b%s=" % _re.escape(f.name), shown.split("(", 1)[-1].split("Inner(")[0] if False else shown):
+                # nested Inner(...) reprs use other field names (x, s), so a match is this message's own field
+                col.add("stale-member-still-set-after-%s" % after, "group %s selects %r but repr shows %s set: %s" % (g, expected[g], f.name, shown[:160]))
+                return False
     try:
         b = bytes(x)
         present = {r.number for r in W.split(b)}
@@ -298,17 +313,26 @@ def C07(m, rnd):
         return col.result()
     expected = want
     ops = ["construct", "set-default", "set-nondefault", "set-plain", "parse", "from_dict", "class-from_dict", "copy", "deepcopy", "pickle", "parse-none"]
+    stale = set()
     for _ in range(rnd.randint(2, 7)):
         op = rnd.choice(ops)
         try:
             if op == "construct":
                 kw = {}
+                stale = set()
                 expected = {g: None for g in groups}
                 for g, fs in groups.items():
                     if rnd.random() < 0.7:
                         f = rnd.choice(fs)
                         kw[f.name] = _c07_val(rnd, f.name)
                         expected[g] = f.name
+                        if rnd.random() < 0.35 and len(fs) > 1:
+                            # two members of one group passed at once: the constructor assigns in field
+                            # definition order, so the later-defined one is the member set last
+                            f2 = rnd.choice([o for o in fs if o.name != f.name])
+                            kw[f2.name] = _c07_val(rnd, f2.name)
+                            expected[g] = max((f, f2), key=lambda o: fs.index(o)).name
+                            stale.add(g)
                 if rnd.random() < 0.5:
                     kw["plain"] = 3
                 x = C.OneOfs(**kw)
@@ -317,6 +341,7 @@ def C07(m, rnd):
                 setattr(x, name, _c07_val(rnd, name, default=(op == "set-default")))
                 expected = dict(expected)
                 expected[grp_of[name]] = name
+                stale.discard(grp_of[name])
             elif op == "set-plain":
                 x.plain = rnd.choice([0, 1, -7])
                 x.label = rnd.choice(["", "l"])
@@ -329,6 +354,7 @@ def C07(m, rnd):
                     piece = C.OneOfs(**{name: _c07_val(rnd, name)})
                     data += C.to_reference(piece).SerializeToString()
                     expected[grp_of[name]] = name
+                    stale.discard(grp_of[name])
                 if op == "parse-none" and rnd.random() < 0.5:
                     data = C.to_reference(C.OneOfs(plain=4)).SerializeToString()
                 x.parse(data)
@@ -345,19 +371,22 @@ def C07(m, rnd):
                 if op == "from_dict":
                     x.from_dict(d)
                     expected = {g: (new[g] or expected[g]) for g in groups}
+                    stale -= {g for g in groups if new[g]}
                 else:
                     x = C.OneOfs.from_dict(d)
                     expected = new
+                    stale = set()
             elif op == "copy":
                 x = copy.copy(x)
             elif op == "deepcopy":
                 x = copy.deepcopy(x)
             elif op == "pickle":
                 x = pickle.loads(pickle.dumps(x))
+                stale = set()
         except Exception as e:
             col.add("%s-raises" % op, exc(e))
             break
-        if not _c07_check(col, x, expected, op):
+        if not _c07_check(col, x, expected, op, stale):
             break
     return col.result()
 
@@ -851,6 +880,35 @@ def C17(m, rnd):
                         col.add("wiretype-mismatch:not-kept-as-unknown:%s" % label, "record %s missing from %s" % (x.raw.hex(), out.hex()[:80]))
                 except Exception as e:
                     col.add("wiretype-mismatch:reencode-raises:%s" % label, exc(e))
+
+    # --- a packed repeated field whose payload cuts an element in the middle (length not a multiple of the
+    #     element width / a dangling continuation byte): a field cut in the middle must be rejected
+    for f in fields:
+        if f.label != "repeated":
+            continue
+        if f.kind in W.FIXED32_KINDS or f.kind in W.FIXED64_KINDS:
+            width = 4 if f.kind in W.FIXED32_KINDS else 8
+            for nelem in (0, 1, 2):
+                for extra in sorted({1, width - 1, width // 2}):
+                    payload = bytes(rnd.randrange(1, 200) for _ in range(nelem * width + extra))
+                    for data in (W.make(f.number, W.LEN, payload).raw + base, base + W.make(f.number, W.LEN, payload).raw):
+                        status, res = _try_parse(cls, data)
+                        _record_agreement(cls, data, status)
+                        if status == "ok":
+                            col.add("truncated-accepted:packed-%s-element-cut" % ("fixed32" if width == 4 else "fixed64"),
+                                    "packed payload of %d bytes (element width %d) accepted: %s -> %s" % (len(payload), width, data.hex()[:80], short(res)))
+                        elif status == "timeout":
+                            col.add("nontermination:packed-element-cut", data.hex()[:80])
+        elif f.kind in W.VARINT_KINDS:
+            for good in (b"", b"\x01", b"\x96\x01"):
+                payload = good + b"\x80"
+                data = base + W.make(f.number, W.LEN, payload).raw
+                status, res = _try_parse(cls, data)
+                _record_agreement(cls, data, status)
+                if status == "ok":
+                    col.add("truncated-accepted:packed-varint-element-cut", "%s -> %s" % (data.hex()[:80], short(res)))
+                elif status == "timeout":
+                    col.add("nontermination:packed-element-cut", data.hex()[:80])
 
     # --- invalid wire types, field number 0, groups
     some_known = fields[0].number if fields else 1
